@@ -71,6 +71,22 @@ CLAIMS = {
             "Proof: C18_share (old-labelled parts of a serialization result are exactly the input sub-values at Any/pass_through positions and at collection positions whose origin is in the effective no_copy_collections and whose element packer is the identity), C18_default_fresh, C18_decode_fresh, C18_decode_all_fresh, C18_no_mutation; partial w.r.t. the semantic reading of 'conversion-free' (Optional/Literal elements, C18_share_full_refuted) and refuted for unions under no_copy (3 known findings). Closed under the global context. Real mutation-freedom is checked by the oracle, not proved.",
             "Trusted: Coq kernel + vm_compute; Share.v as a model of CPython identity (comprehension/.copy()/display build a new object, a bare name evaluates to the same object) and of option lookup / dialect forwarding (effN); harness materialisation and id() labelling; unions, Literal, TypedDict, ChainMap, bytearray are oracle-only.",
             "4 C18"),
+    "C06": ("Coq proof by induction (soundness of the schema model w.r.t. a Draft 2020-12 validator model) + kernel K6 (on_tuple bounds arithmetic) translated from source each run; four vm_compute correspondences (kernel, schema model vs build_json_schema, jvalid vs the jsonschema package, encoding/domain); direct validator oracle",
+            "Proof (partial): C06_sound_partial (for every type, value, dialect prefix, all_refs mode and fuel of the modelled grammar: the serialized document validates against the generated schema) under ty_ok/env_ok which exclude exactly the seven known findings and fixed tuples with Unpack segments; for those tuples K6_spec / K6_min_le_max / K6_accepts_lengths over the kernel re-translated each run; C06_required_iff_no_default, C06_satisfiable, C06_tz_pattern; refutation witnesses per finding. Closed under the global context.",
+            "Trusted: Coq kernel + vm_compute; the K6 plugin translator; harness emitters (keyword order canonicalised, default/description stripped, union member order from the real typing object); stdlib leaf rendering, tzname, regex semantics modelled; the jsonschema 4.26 Draft202012Validator as the standard validator.",
+            "4 C06"),
+    "C12": ("Coq proofs by induction over define/decode histories of a registry state machine; kernel K12 (iter_all_subclasses, variant enumeration) translated from source each run; vm_compute correspondence with real dynamically created class hierarchies; direct oracle",
+            "Proof: C12_registry_invariant, C12_registry (a field-discriminated decode returns exactly the eligible class defined so far that carries the tag, SuitableVariantNotFound iff none, MissingDiscriminator iff the key is absent), C12_history_independent, C12_eligible_exact, C12_nofield, C12_code_variants (over the kernel re-translated each run), under uniqueness of the decoded tag and no self-dispatching carrier; known finding nofield-inherited-unpacker refuted in Coq. Closed under the global context.",
+            "Trusted: Coq kernel + vm_compute (coqchk in thorough); the K12 translator; model of __subclasses__ order, dict semantics and dataclass acceptance (compared with /repo on every run); harness rendering of histories.",
+            "4 C12"),
+    "C20": ("Coq proof (state-passing model of schema building + generic invariant over build sequences; totality by rank, divergence for every fuel on cyclic tables) + kernel K9 (context defaults, ref prefix, reference/registration key) translated from source each run; vm_compute correspondence with build_json_schema; metaschema / refs / round-trip oracle",
+            "Proof (partial): C20_refs_closed (every $ref of every output and definition names a key of the final definitions, over any sequence of builds on one context), C20_wf (metaschema-relevant well-formedness), C20_total on ranked (acyclic) class tables, C20_cyclic_diverges (known finding D10), C20_K9_prefix / C20_K9_ref_names_key over the kernel re-translated each run. The JSONSchema.from_dict/to_dict round trip and everything outside the model grammar are checked on the real code by the oracle only; 10 known findings. Closed under the global context.",
+            "Trusted: Coq kernel + vm_compute; the K9 plugin with its structure-checked slices; the model grammar; the jsonschema package (check_schema); the generator's known-finding predicates.",
+            "4 C20"),
+    "C17": ("Coq proof of a definite-assignment + free-name analysis (soundness over a nondeterministic semantics: every branch, exception edge, loop count) with per-program translation validation: every generated program captured on this run is translated fail-closed from its Python ast and gets a kernel-checked check_closed = true; setdefault-namespace binding model; dis-based oracle on the real code objects",
+            "Proof: C17_closed_sound (check_closed p = true implies no execution path of p, including error paths never exercised, raises NameError/UnboundLocalError), C17_shard_sound (instantiated for every captured program: ~4.8k per quick run, ~57k thorough), C17_attrs_closed_sound; identity binding C17_binding_partial under injective rendered names, refuted for same-named classes and clean_id collisions (known findings). Quantification over schemas is by sampling; per captured program it is a proof for all inputs and paths. Closed under the global context.",
+            "Trusted: Coq kernel + vm_compute; Closed.v as a model of CPython name lookup (function frames LOAD_FAST, comprehension scopes, module-level LOAD_NAME, except-as unbinding); harness/c17_translate.py (fail-closed ast translator); the exec-rebinding capture (checked each run that no other exec/eval site exists); module/class attribute chains and type identity are checked by the oracle only.",
+            "4 C17"),
 }
 
 ALL = [f"C{i:02d}" for i in range(1, 21)]
